@@ -592,6 +592,16 @@ def run(prog: Program, rep: Report, tier: str):
     has_any = ("ref", "typing.Any") in rets
     has_constraints = any(T.contains(r, lambda s: s == ("attr", tv, "__constraints__")) for r in rets)
     rep.check(has_bound and has_any and has_constraints, "R15.2", nt.qualname, nt.loc, "TypeVars normalise to their bound, the union of their constraints, or Any", "normalize_typevar does not cover bound / constraints / Any", detail="typevar")
+    # a further attribute of the TypeVar handed out as its normal form must be told apart from "nothing declared" by the
+    # sentinel the typing modules use: `typing_extensions.TypeVar("T").__default__` is `NoDefault` (an object that is neither
+    # None nor false), and `default=None` is a declared default -- `is not None` / truthiness decide neither
+    for pth, r in P.returns(P.paths_of(prog, nt)):
+        reads = [s_ for s_ in T.walk(r) if (s_[0] == "attr" and s_[1] == tv and s_[2] not in ("__bound__", "__constraints__")) or (T.is_call_to(s_, "builtins.getattr") and s_[2][:1] == (tv,) and len(s_[2]) > 1 and s_[2][1][0] == "const" and s_[2][1][1] not in ("__bound__", "__constraints__"))]
+        if not reads:
+            continue
+        told = any(T.contains(g, lambda y: (y[0] == "ref" and y[1].rsplit(".", 1)[-1] == "NoDefault") or (y[0] == "call" and y[1][0] == "attr" and y[1][2] == "has_default")) for g, _ in pth.guards())
+        nm = reads[0][2] if reads[0][0] == "attr" else reads[0][2][1][1]
+        rep.check(told, "R15.2", nt.qualname, nt.loc, f"`{nm}` of a TypeVar is handed out only where the NoDefault sentinel / has_default() was consulted", f"normalize_typevar returns the TypeVar's `{nm}` without telling the `NoDefault` sentinel apart (it is neither None nor false): a free typing_extensions.TypeVar normalises to the sentinel object, and `list[T]`, `Optional[T]`, a Generic[T] class fail at construction with TypeError", detail="typevar-default-sentinel")
     af = prog.function(f"{C.INSP}.args")
     def normalises(r):
         # through the private generator helper, or spelled out: normalize_typevar applied to each element
